@@ -221,6 +221,36 @@ def _escapes_entry(eff, mod, node, exc):
     return False
 
 
+def check_value_domain(chk):
+    """C05.V: a host ** on script numbers can produce a complex number (negative base, fractional exponent): a non-BareScript value
+    must not be returned"""
+    mod = chk.repo.module('runtime')
+    func = mod.func('evaluate_expression', 'C05.V')
+    vv = runtime_value_vars(mod).get(('runtime', 'evaluate_expression'), set())
+    n = 0
+    for node in walk_no_nested(func):
+        if isinstance(node, ast.BinOp) and isinstance(node.op, ast.Pow) and isinstance(node.left, ast.Name) and node.left.id in vv:
+            n += 1
+            par = getattr(node, '_parent', None)
+            guarded = False
+            if isinstance(par, ast.Assign) and isinstance(par.targets[0], ast.Name):
+                res = par.targets[0].id
+                for r in walk_no_nested(func):
+                    if isinstance(r, ast.Return) and r.value is not None and res in {x.id for x in ast.walk(r.value) if isinstance(x, ast.Name)}:
+                        if f'isinstance({res}, complex)' in norm(r.value) or f'isinstance({res}, (int, float))' in norm(r.value):
+                            guarded = True
+                    if isinstance(r, ast.If) and f'isinstance({res}, complex)' in norm(r.test):
+                        guarded = True
+            if guarded:
+                chk.ok('C05.V', f'{norm(node)}: a complex result is mapped to null before it is returned')
+            else:
+                chk.bad('C05.V', mod, 'evaluate_expression', f'{norm(node)} returned unchecked',
+                        'left ** right with a negative base and a fractional exponent yields a Python complex number: a value that is not a BareScript value reaches the script / host '
+                        '(it must evaluate to null like other invalid operations)', node=node)
+    if n == 0:
+        raise Unrecognised('C05.V', 'no ** on script values found in evaluate_expression', mod.rel)
+
+
 def check_failure_values(chk):
     from .c15 import check_failure_values as cfv
     cfv(chk, rule='C05.L')
@@ -235,8 +265,10 @@ def run(chk):
         'host option callbacks logFn / urlFn do not raise (host configuration); models are schema-valid; values are acyclic and recursion depth is bounded',
         'CPython primitive table: see sa/raises.py; comparisons of numbers/strings/booleans, unary minus, isinstance, len never raise',
     ]
+    chk.rule('C05.V', 'no non-BareScript value (complex) is produced by the arithmetic operators', floor=1)
     chk.guard('C05.W', check_wrapper, chk)
     chk.guard('C05.E', check_escape, chk)
+    chk.guard('C05.V', check_value_domain, chk)
     try:
         chk.guard('C05.L', check_failure_values, chk)
     except ImportError:
